@@ -9,7 +9,9 @@ from props import regex_common as rc
 
 RULE = ("random ASTs (depth <= 4; literals, wildcard, (), | & ^, concatenation, * + ?, {m,n} {m,} {,n} {,} incl. upper "
         "bound 0, m = n, nested repeats) over alphabets of 1-3 symbols, printed with minimal or redundant parentheses "
-        "and random blanks, with and without explicit input_symbols; compared: NFA.from_regex vs the model's compile by "
+        "and random blanks, with and without explicit input_symbols; expressions over the explicitly empty alphabet; "
+        "sequences over alphabets not used before in the process (a small expression, then expressions that start with the "
+        "empty group); compared: NFA.from_regex vs the model's compile by "
         "nfa_diff (both must be valid NFAs), the model's parse vs the generated AST, and accepts_input vs the denotation "
         "on all words up to length 6 (5 for 3 symbols); distinct = distinct (string, input_symbols); non-trivial = the "
         "AST has an operator and the language is neither empty nor {''}")
@@ -156,6 +158,30 @@ def run(ctx):
         corner.append({"ast": r, "s": s, "input_symbols": "ab"})
         corner.append({"ast": r, "s": s, "input_symbols": None})
     run_cases(ctx, corner, "corner")
+    # the explicitly empty alphabet (only the empty word exists; digits and commas of {m,n} are not symbols)
+    empty = []
+    for r, s in [(("rep", ("any",), 1, 2), ".{1,2}"), (("rep", ("eps",), 2, 3), "(){2,3}"), (("eps",), "()"), (("eps",), ""),
+                 (("star", ("any",)), ".*"), (("rep", ("any",), 0, 3), ".{,3}"), (("any",), "."),
+                 (("star", ("union", ("rep", ("any",), 2, None), ("eps",))), "(.{2,}|())*"),
+                 (("opt", ("rep", ("any",), 1, 1)), ".{1,1}?"), (("union", ("any",), ("eps",)), ".|()")]:
+        empty.append({"ast": r, "s": s, "input_symbols": ""})
+    run_cases(ctx, empty, "empty_alphabet")
+    # a compilation after other calls over the same alphabet: alphabets not used before in this process, a small
+    # expression first, then expressions whose left-most operand is the empty group
+    for j in range(ctx.n(60, 900)):
+        sigma = "".join(sorted(rng.sample(rc.POOL[:52], rng.choice([1, 2, 2, 3]))))
+        x = ("sym", rng.choice(sigma))
+        r1 = rc.rand_ast(rng, sigma, rng.choice([1, 2]), p_prod=0.0)
+        first = rng.choice([x, x, ("cat", x, ("sym", rng.choice(sigma))), ("union", x, ("sym", rng.choice(sigma))), r1])
+        seq = [first]
+        for _ in range(2):
+            r = rc.rand_ast(rng, sigma, rng.choice([1, 1, 2]), p_prod=0.0)
+            seq.append(rng.choice([("star", ("union", ("eps",), r)), ("rep", ("union", ("eps",), r), 1, 3),
+                                   ("union", ("eps",), r), ("cat", ("union", ("eps",), x), r),
+                                   ("plus", ("union", ("union", ("eps",), ("eps",)), r))]))
+        explicit = rng.random() < 0.7
+        run_cases(ctx, [{"ast": r, "s": rc.print_ast(r, rng), "input_symbols": sigma if explicit else None} for r in seq],
+                  "fresh_alphabet_sequence")
     total = ctx.n(420, 9000)
     batch = []
     for i in range(total):
